@@ -2,6 +2,8 @@ SPECIFICATION Spec
 CONSTANTS
   NCol = 3
   NRow = 3
+  SRow = 2
+  Ops = {"remove", "clear", "clone_from"}
   Guarded = TRUE
 INVARIANT PanicSafe
 CHECK_DEADLOCK FALSE
